@@ -1,5 +1,5 @@
-\* thorough: 2-D 3x2 lattice, squared Euclidean key, all sequences of 1..5 points, full eps / minPts range; printed for replay
-CONSTANTS W = 3  H = 2  MaxN = 5  EpsSet = {1, 2, 4, 5}  MinPtsSet = {1, 2, 3, 4, 5}
+\* thorough: 2-D 3x2 lattice, squared Euclidean key (1 axis, 2 +diagonal, 4 +two apart), all sequences of 1..5 points, minPts 1..4; printed for replay
+CONSTANTS W = 3  H = 2  MaxN = 5  EpsSet = {1, 2, 4}  MinPtsSet = {1, 2, 3, 4}
           Key = "euc2"  Order = "asc"  Emit = TRUE
 SPECIFICATION Spec
 INVARIANT ModelSatisfiesProperty
